@@ -8,7 +8,8 @@ REPLAYERS = {'connection.Connection._send': 'replayers/connection.py',
              'connection.Connection._recv_bytes': 'replayers/connection.py',
              'connection._ConnectionBase.send': 'replayers/connection.py',
              'connection._ConnectionBase.recv': 'replayers/connection.py',
-             'connection._ConnectionBase.recv_bytes_into': 'replayers/connection.py'}
+             'connection._ConnectionBase.recv_bytes_into': 'replayers/connection.py',
+             'connection._ConnectionBase.send_bytes': 'replayers/connection.py'}
 
 ASSUMPTIONS = [
     'os.write(h, buf): raises OSError(errno arbitrary) having written nothing, or writes a prefix of length n with '
